@@ -309,7 +309,12 @@ def history(ctx, seed):
                 p = o.train.shape[1]
                 nb = int(rng.integers(6, 20))
                 B, _ = gen_data(rng, nb, p, "noise")
-                Bf = _frame(B, o.index_kind or "range0", start=len(o.train))
+                # half of the chunks overlap the tail of the stored data with other values: combined
+                # data = the new values on the shared stamps, the old ones elsewhere
+                overlap = int(rng.integers(0, min(8, len(o.train)))) if rng.random() < 0.5 else 0
+                if overlap:
+                    ctx.stat("update_events_overlapping")
+                Bf = _frame(B, o.index_kind or "range0", start=len(o.train) - overlap)
                 if not isinstance(o.train.index, type(Bf.index)):
                     continue
                 Bf.columns = o.train.columns
